@@ -227,3 +227,49 @@ Proof.
   eapply (stays_in_range_forever target mx mn (mx - mn) ps x g (FSPow RN up lp) ops us a y); eauto.
   right. right. left. exists up, lp. auto.
 Qed.
+
+(* ------------------------------------------------------------------ any reduction (torch.sum, custom ones) *)
+(* The history theorem above asks the REDUCTION to keep magnitudes in [0, cap] (mean, amax, amin, ...).
+   For an arbitrary reduction (the default torch.sum included) the property's own hypothesis is on the reduced
+   magnitudes; here over an arbitrarily long sequence of accumulate-apply-clear rounds. *)
+Section Rounds.
+Variables (mx mn cap : R) (b : bindT RN) (red : list R -> R).
+
+Definition round_ok (len : nat) (r : list tensorW * list tensorW) : Prop :=
+  Forall (fun p => length p = len) (fst r) /\ Forall (fun p => length p = len) (snd r) /\
+  forall j, (j < len)%nat -> 0 <= rcol red (fst r) j <= cap /\ 0 <= rcol red (snd r) j <= cap.
+
+(* one round: the trainers contribute fst r / snd r, then Accumulator.forward, then clear *)
+Definition round_step (x : tensorW) (r : list tensorW * list tensorW) : res tensorW :=
+  snd (acc_forward RN (mkAcc RN (fst r) (snd r) None None red b) x).
+Fixpoint rounds (x : tensorW) (rs : list (list tensorW * list tensorW)) : res tensorW :=
+  match rs with
+  | [] => Ok x
+  | r :: tl => match round_step x r with Ok y => rounds y tl | Err e => Err e end
+  end.
+
+Theorem rounds_stay_in_range rs : forall (x : tensorW),
+  range_bind mx mn cap b -> in_range mx mn x -> Forall (round_ok (length x)) rs ->
+  exists y, rounds x rs = Ok y /\ length y = length x /\ in_range mx mn y.
+Proof.
+  induction rs as [|r tl IH]; intros x Hb Hx Hr; [exists x; auto|].
+  inversion Hr as [|? ? (Wp & Wn & Hmag) Htl]; subst.
+  destruct (range_bind_ok _ _ _ _ Hb) as [Hok _].
+  set (a := mkAcc RN (fst r) (snd r) None None red b).
+  assert (Hc : coh a) by (split; exact I).
+  destruct (apply_spec a x Hc (conj Wp Wn) Hok) as (a' & y & Eg & _ & _ & Ly & Hy).
+  assert (Hy' : in_range mx mn y).
+  { unfold in_range. apply Forall_forall. intros v Hv.
+    destruct (In_nth y v 0 Hv) as (j & Hj & <-). rewrite Ly in Hj. rewrite (Hy j Hj).
+    assert (Hxj : mn <= nth j x 0 <= mx).
+    { unfold in_range in Hx. rewrite Forall_forall in Hx. apply Hx, nth_In, Hj. }
+    destruct (Hmag j Hj) as [Rp Rn].
+    pose proof (range_bind_step mx mn cap _ _ _ _ Hb Hxj Rp Rn) as Hs.
+    cbn [a apos aneg ared abind]. destruct (fst r), (snd r); try exact Hs. exact Hxj. }
+  destruct (IH y Hb Hy') as (z & Ez & Lz & Hz).
+  { eapply Forall_impl; [|exact Htl]. intros r0 H0. unfold tensor in *. change (T RN) with R in *.
+    rewrite Ly. exact H0. }
+  exists z. split; [|split; [exact (eq_trans Lz Ly)|exact Hz]].
+  cbn [rounds]. unfold round_step. fold a. rewrite Eg. cbn [snd]. exact Ez.
+Qed.
+End Rounds.
